@@ -216,9 +216,6 @@ fn u(v: u64) -> E {
 fn i(v: i64) -> E {
     E::Leaf(cx::int(v as i128))
 }
-fn b(v: &[u8]) -> E {
-    E::Leaf(cx::bytes(v))
-}
 fn bv(v: &ByteVec) -> E {
     E::Leaf(cx::bytes(v))
 }
@@ -540,9 +537,4 @@ pub fn eb_block(v: &byron::EbBlock) -> E {
 /// block = [0, ebblock] / [1, mainblock]
 pub fn wrapped(era: u64, inner: E) -> E {
     arr(vec![("era", u(era)), ("block", inner)])
-}
-
-#[allow(dead_code)]
-fn _unused(x: &[u8]) -> E {
-    b(x)
 }
